@@ -129,6 +129,39 @@ CLAIMED["C14"] = dict(
     technique=E2 + "; heap and byte-range view contracts, extracted loop body for the inductive step (LIA)",
 )
 
+CLAIMED["C10"] = dict(
+    category="other",
+    text=("Structural clauses are proof obligations discharged on the real matrix_functions code executed on symbolic matrices with uninterpreted dense kernels: dispatch on the "
+          "config type with the config's own parameters, every raise condition, 1x1 and diagonal fast paths equal to the general spectral value on PSD input, Newton's "
+          " and budget rule, the higher-order solver's while/else flag semantics, its residual/NaN guard and the tf32 restore on "
+          "every exit. The accuracy clause (relative error <= c n u cond + tolerance) is a floating-point statement no such contract can decide: it is sampled natively against "
+          "a float64 spectral oracle (bounded stand-in, labelled, not counted as proved)."),
+    design_ref="DESIGN.md §4/C10",
+    note="dense kernels uninterpreted; iteration budgets enumerated small; accuracy bounded only (sizes 1..16 quick / 128 thorough, spectra, scales, roots, dtypes, four solver configs)",
+    technique=E2 + " for the structural clauses; bounded numeric sampling for the accuracy clause",
+)
+CLAIMED["C11"] = dict(
+    category="proof",
+    text=("On the real code: the eigendecomposition path returns the spectral function Q f(Lambda) Q^T of eigh(A) with f(lambda) = (lambda - min(lambda_min,0) + eps)^(-1/r) "
+          "(both stability variants), the shifted eigenvalue is >= eps > 0 for every real input whatever the sign of lambda_min, hence 0 < f <= eps^(-1/r) (lemma over the assumed "
+          "monotone-power axioms); the 1x1 shortcut equals that formula for any sign; non-square / non-2-D inputs with more than one element are rejected on every path; the "
+          "double-precision retry happens exactly when the first attempt throws, the flag is set and the dtype is not float64."),
+    design_ref="DESIGN.md §4/C11",
+    note=("eigh exact-arithmetic contract and real-power axioms assumed; symmetric-PD / commuting / equivariance consequences of the spectral form are cited textbook facts and are "
+          "sampled natively (bounded) on zero, rank-deficient and slightly indefinite matrices; floating-point finiteness sampled"),
+    technique=E2 + "; real arithmetic lemma for the spectral function",
+)
+CLAIMED["C12"] = dict(
+    category="other",
+    text=("Control and data flow of matrix_eigenvectors / _compute_orthogonal_iterations / check_diagonal are proof obligations on the real code (1x1 -> ones, diagonal flag -> "
+          "eye in A's dtype, shape rejection, eigh config -> eigh's eigenvectors, QR: zero estimate -> eigh fallback, else 1..max updates Q <- qr(A @ Q).Q and a final permutation "
+          "by ascending Rayleigh quotient, unknown config -> NotImplementedError). Orthonormality / ordering / diagonalisation follow only from the assumed LAPACK contracts; "
+          "they and the fixed-point-up-to-sign clause are sampled natively (bounded stand-in)."),
+    design_ref="DESIGN.md §4/C12",
+    note="LAPACK eigh/qr contracts assumed; QR iteration budget enumerated; numerics bounded only (sizes 1..16 quick / 64 thorough, repeated eigenvalues, both dtypes)",
+    technique=E2 + " for control/data flow; bounded numeric sampling for the numerical clauses",
+)
+
 NOT_YET = "no check committed yet for this property (work in progress; see DESIGN.md for the planned contract)"
 
 
